@@ -61,7 +61,11 @@ fn main() {
           g_pp::gen_c15(seed, thorough, only, &mut out);
           g_pp::gen_json(seed, thorough, &mut out);
         }
-        "C07" => g_fp::gen(seed, thorough, only, &mut out),
+        "C07" => {
+          g_fp::gen(seed, thorough, only, &mut out);
+          // encodings not below the modulus are also refused where a secret is cut into elements
+          g_sharks::gen_bad_chunks(&mut out);
+        }
         _ => {
           eprintln!("unknown property {}", prop);
           std::process::exit(2);
